@@ -410,6 +410,10 @@ O(id='OCTET_STRING_decode_oer.b12', props=['C04', 'C05', 'C14', 'C15'], kind='bo
   unwind=14, cbmc=['--malloc-may-fail', '--malloc-fail-null', '--memory-leak-check'], bound='every input of at most 12 octets, every subvariant, SIZE -1..16, fresh or re-used structure; allocation may fail',
   min_props=50, timeout=600, **OSO)
 
+O(id='ber_skip_length.b6', props=['C03', 'C04', 'C05', 'C15'], kind='bounded', entry='h_ber_skip_length', functions=['ber_skip_length', 'ber_fetch_tag', 'ber_fetch_length'], tier='experimental',
+  unwind=8, cbmc=['--unwindset', 'ber_skip_length:5'], bound='every input of at most 6 octets and every cut point; nesting depth <= 4 (recursion unwound with unwinding assertions)',
+  trusted=['ASN__STACK_OVERFLOW_CHECK evaluated with max_stack_size 0 (disabled)'], min_props=30, timeout=900, **BL)
+
 UNVERIFIED = {
  'C07': ['asn_encode_to_buffer / asn_encode_to_new_buffer / uper_encode_to_buffer / uper_encode_to_new_buffer with a UPER type encoder: obligations exist (tier experimental) but do not discharge (symbolic-length memcpy of the 32-octet bit scratch space runs out of memory); asn_encode with UPER is covered',
          'every constructed / generated type encoder is assumed to follow the operation-slot convention enumerated by the stub encoder',
